@@ -114,6 +114,9 @@ func (m *MonC02) AfterBlock(o *BlockOutcome) {
 		}
 		rel := "later"
 		rep.Class("C02.payout/slashed" + fmt.Sprint(min(u.Slashes, 2)) + "/" + rel)
+		if u.Amount.IsZero() {
+			rep.Class("C02.payout/zero-entry") // slashed down to nothing before maturity: removed without a payment
+		}
 	}
 	for _, u := range m.R.Sh.Unb {
 		if u.Completion.Equal(T) {
